@@ -49,6 +49,13 @@ def items(tier):
         if any(k in ("FF", "SF") for _, _, k in fl["links"]):
             sp = dict(F.with_teams(fl, "DED"), order=[2, 1, 0])
             out.append((sp, {"rule": "TSLACK", "max_time": F.seq_bound(sp) + 8}))
+    for sp0 in F.auto_component_specs():
+        sp = dict(sp0, tasks=[dict(t, nf=True) if t.get("auto") else dict(t) for t in sp0["tasks"]])  # automatic AND need_facility
+        for aa in (False, True):
+            out.append((sp, {"rule": "TSLACK", "auto_abs": aa, "max_time": F.seq_bound(sp) + 12}))
+    out.append(({"tasks": [{"name": "T0", "work": 3.0, "auto": True, "nf": True, "unit": 0.5}], "links": [], "teams": []}, {"rule": "TSLACK", "max_time": 12}))
+    for sp in F.double_link_specs() + [F.float_noise_spec()]:
+        out.append((sp, {"rule": "TSLACK", "max_time": F.seq_bound(sp) + 10}))
     for sp in F.same_name_task_specs() + F.auto_in_workplace_specs():
         out.append((sp, {"rule": "TSLACK", "max_time": F.seq_bound(sp) + 10}))
     for sp in F.auto_component_specs() + F.rule_sensitive_specs():
